@@ -453,6 +453,13 @@ func (x *c08) prepare(op C08Op, m *mcontract) (exchange, error) {
 			if size == 0 || len(indices) == 0 {
 				return expectation{}, fmt.Errorf("nothing to free")
 			}
+			seen := map[uint64]bool{}
+			for _, i := range indices {
+				if i >= uint64(size) || seen[i] {
+					return expectation{}, fmt.Errorf("index out of range or repeated")
+				}
+				seen[i] = true
+			}
 			newRoots := listFree(m.Roots, indices)
 			rev, usage, err := proto4.ReviseForFreeSectors(m.Rev, prices, proto4.MetaRoot(newRoots), len(indices))
 			return expectation{op: "ReviseV2Contract", rev: rev, usage: usage, roots: newRoots, apply: func() { m.Roots = newRoots }}, err
@@ -541,8 +548,7 @@ func (x *c08) prepare(op C08Op, m *mcontract) (exchange, error) {
 		}
 		var keys []proto4.Account
 		var kidx []int
-		for _, k := range op.Keys {
-			i := mod(k, len(all))
+		for _, i := range distinct(op.Keys, len(all)) { // a key listed twice is C15's business
 			keys, kidx = append(keys, all[i]), append(kidx, i)
 		}
 		if len(keys) == 0 {
@@ -556,12 +562,11 @@ func (x *c08) prepare(op C08Op, m *mcontract) (exchange, error) {
 			keys, kidx = nil, nil
 		case "target-overflow":
 			target = types.MaxCurrency
-			keys, kidx = []proto4.Account{all[0], all[1%len(all)], all[0]}, []int{0, 1 % len(all), 0}
+			keys, kidx = []proto4.Account{all[0], all[1]}, []int{0, 1}
 		}
 		e.what = fmt.Sprintf("%s %v to %v", op.Op, kidx, target)
 		// the harness' own deposit computation: max(target - balance, 0) on
-		// the balance before the RPC, per listed key (a key listed twice is
-		// topped up twice from the same starting balance)
+		// the balance before the RPC, per listed (distinct) key
 		var deps []proto4.AccountDeposit
 		var sum types.Currency
 		overflow := false
